@@ -211,8 +211,8 @@ def _replay_route(args):
 
 
 # --------------------------------------------------------------------------- replay: manager
-SPECIES = {'A': dict(nS=3, nE=5, hS=set(), hE={2, 4}, valid=[(1, 2), (3, 5), (2, 1), (1, 4)]),
-           'B': dict(nS=6, nE=4, hS={1, 5}, hE=set(), valid=[(5, 1), (2, 3), (6, 4), (1, 1), (2, 2)])}
+SPECIES = {'A': dict(nS=3, nE=5, hS=set(), hE={2, 4}, valid=[(1, 2), (3, 5), (2, 1), (1, 4), (3, 5)]),       # a pair may be listed more than once (a heavier weight)
+           'B': dict(nS=6, nE=4, hS={1, 5}, hE=set(), valid=[(5, 1), (2, 3), (6, 4), (1, 1), (2, 2), (5, 1), (5, 1)])}
 BAD_RESTR = [5, [(0, 1, 2)], [(99, 0)], [(0, 99)], [3]]
 BAD_DEFORM = [5, (0, 1, 2, 0)]
 BAD_IGN = ['yes', 1, None]
